@@ -249,7 +249,7 @@ class Surface(SplineObject):
             C = b.insert_knot(knot) @ C
 
         # at this point we have a C0 basis, find the right interpolating index
-        i  = max(bisect_left(b.knots, knot) - 1,0)
+        i  = max(bisect_left(b.knots, knot) - 1,0) % b.num_functions()
 
         # compute the controlpoints and return Curve
         cp = np.tensordot(C[i,:], self.controlpoints, axes=(0, direction))
